@@ -516,7 +516,7 @@ def parse_host(
         # IPv6 address with a port
         pos = host.rfind(']:')
         if pos != -1:
-            return (host[1:pos], int(host[pos + 2 :]))
+            return (host[1:pos], _parse_port(host[pos + 2 :], default_port))
         else:
             return (host[1:-1], default_port)
 
@@ -529,7 +529,16 @@ def parse_host(
     # only a single colon, so we should have an IPv4 address
     # or a domain name plus a port
     name, _, port = host.partition(':')
-    return (name, int(port))
+    return (name, _parse_port(port, default_port))
+
+
+def _parse_port(port: str, default_port: Optional[int]) -> Optional[int]:
+    # NOTE: An empty port is valid (RFC 3986, Section 3.2.3), and a port may
+    #   be obfuscated (RFC 7239, Section 6.2) or otherwise not numeric; none
+    #   of these carry a port number.
+    if port.isascii() and port.isdigit():
+        return int(port)
+    return default_port
 
 
 def unquote_string(quoted: str) -> str:
